@@ -21,7 +21,8 @@ type Obligation struct {
 	Func   string
 	Pos    token.Position
 	Detail string
-	Cover  bool // must be SAT (vacuity probe)
+	Cover  bool    // must be SAT (vacuity probe)
+	Clause *Clause // post: the ensures clause this obligation proves
 	// model extraction: named inputs of the function under verification
 }
 
@@ -59,6 +60,17 @@ type Exec struct {
 	tolerant    bool
 	noInline    bool
 	allocBound  func(f *frame, n *node, in *ssa.MakeSlice, ln string)
+	// skolemNext, when set, makes the next vcForall evaluated bind its variable to a fresh
+	// constant instead of a quantifier. Only Verify sets it, only for an ensures clause that
+	// is itself the forall (positive position), where proving it for an arbitrary constant
+	// is the same as proving the quantified formula.
+	skolemNext *skolem
+}
+
+type skolem struct {
+	name string // SMT constant
+	sort string
+	v    Val
 }
 
 type cellMeta struct {
